@@ -378,7 +378,8 @@ pub fn run_case(backend: &str, seed: u64, rep: &mut Report, thorough: bool, corr
                             let left = std::fs::metadata(trial.join(name)).map(|m| m.len() as usize).unwrap_or(0);
                             if bytes.len() < 6000 {
                                 corr.ops.push(format!("crash scan hex={}", hex::encode(&bytes[hdr..])));
-                                corr.imp.push(format!("records={} cut={}", l.len(), bytes.len() - left));
+                                if left > bytes.len() { rep.spec_fail(&format!("c13-torn-log-grew-on-open:{opname}:{fk}"), json!({"case_seed": seed, "file": name, "kept": cut, "length_before_open": bytes.len(), "length_after_open": left}), "opening a log with a torn tail made the file longer (padding) instead of discarding the partial record"); }
+                                corr.imp.push(format!("records={} cut={}", l.len(), bytes.len() as i64 - left as i64));
                             }
                         }
                     }
@@ -527,7 +528,8 @@ pub fn run_log_case(backend: &str, seed: u64, rep: &mut Report, thorough: bool, 
                     corr.ops.push(format!("crash scan hex={}", hex::encode(&now[4..b.len() + cut])));
                     // records as read by a fresh instance
                     let r = rt(); let n = r.block_on(async { match open_log(&trial, backend, account, folder).await { Ok(l) => l.tree().len() as i64, Err(_) => -1 } }); r.shutdown_timeout(std::time::Duration::from_secs(10));
-                    corr.imp.push(format!("records={} cut={}", n, b.len() + cut - left));
+                    if left > b.len() + cut { rep.spec_fail("c13-torn-log-grew-on-open:ApplyBatch:folder-log", json!({"case_seed": seed, "kept": cut, "length_before_open": b.len() + cut, "length_after_open": left}), "opening a log with a torn tail made the file longer (padding) instead of discarding the partial record"); }
+                    corr.imp.push(format!("records={} cut={}", n, (b.len() + cut) as i64 - left as i64));
                 }
             }
         }
